@@ -241,7 +241,7 @@ def chain(draw):
     tail = draw(element("leaf", clean))
     if tail_form == "instance":
         tail["mode"] = "bindable"
-    return {"elems": elems, "tail": tail, "tail_form": tail_form, "tree": draw(tree(0, n))}
+    return {"elems": elems, "tail": tail, "tail_form": tail_form, "tree": draw(tree(0, n)), "warmup": draw(st.booleans()), "reuse": draw(st.booleans())}
 
 
 # ---------------------------------------------------------------------------- execution
@@ -330,6 +330,12 @@ def run_chain(spec) -> Result:
                 why = "attempt to pass the target"
             else:
                 why = model_bind(e["sig"], leaf, acc_a, acc_k, full=False)
+            if spec.get("warmup") and ci == 0:
+                # history: the same constructor was already used for a harmless template of the same argument shape
+                try:
+                    cls.s(*[(-1 - n if isinstance(x, Pool) else x) for n, x in enumerate(a)], **{key: (0 if isinstance(v, Pool) else v) for key, v in k.items() if key != "target"})
+                except TypeError:
+                    pass
             try:
                 tmpl = cls.s(*a, **k) if ci == 0 else tmpl(*a, **k)
                 raised = None
@@ -408,13 +414,33 @@ def run_chain(spec) -> Result:
     log.clear()
     leaves = templates[:n] + [given_pool if spec["tail_form"] == "instance" else templates[n]]
 
+    memo = {}
+
+    def has_tail(t):
+        return t == n if not isinstance(t, list) else has_tail(t[0]) or has_tail(t[1])
+
     def ev(t):
         if isinstance(t, list):
+            key = repr(t)
+            if spec.get("reuse") and not has_tail(t):
+                # templates are values: an intermediate expression may be kept and used for several pipelines
+                if key not in memo:
+                    memo[key] = ev(t[0]) >> ev(t[1])
+                return memo[key]
             return ev(t[0]) >> ev(t[1])
         return leaves[t]
 
     try:
         head = ev(spec["tree"])
+        if spec.get("reuse") and hand_error is None:
+            first_log = list(log)
+            log.clear()
+            second = ev(spec["tree"])  # the memoised sub-expressions are bound a second time
+            second_log = normalise(log)
+            if second_log != normalise(first_log) and spec["tail_form"] != "instance":
+                res.fail("reused-template-expression-differs", f"binding the same template expressions twice gives {second_log} the second time, {normalise(first_log)} the first (tree {spec['tree']})")
+                return res
+            log[:] = first_log
         err = None
     except TypeError as e:
         head, err = None, e
